@@ -31,10 +31,15 @@ pub uninterp spec fn head_done(status: u16, major: u8, minor: u8) -> bool;
 pub uninterp spec fn body_copied_identity(body: Seq<u8>) -> bool;
 pub uninterp spec fn body_copied_chunked(body: Seq<u8>) -> bool;
 
+// Writing raw bytes to the connection is a capability that NO function of this unit is given: everything raw_print puts on
+// the wire goes through write_message_header (the head), io::copy (the body) or the chunk encoder, each under its own
+// obligation -- a direct `writer.write(..)` in raw_print would be bytes outside the message framing (C04)
+pub uninterp spec fn may_write_raw() -> bool;
 #[verifier::external_trait_specification]
 pub trait ExWrite {
     type ExternalTraitSpecificationFor: std::io::Write;
-    fn write(&mut self, buf: &[u8]) -> (r: std::io::Result<usize>);
+    fn write(&mut self, buf: &[u8]) -> (r: std::io::Result<usize>)
+        requires may_write_raw();
     fn flush(&mut self) -> (r: std::io::Result<()>);
     fn by_ref(&mut self) -> (r: &mut Self) where Self: Sized
         ensures *r == *old(self), *final(r) == *final(self);
@@ -270,7 +275,7 @@ pub open spec fn header_policy(hdrs0: Seq<Header>, decl0: Option<usize>, hh: Hea
         }
 //@closure ~equiv("Content-Type")~ |h: &&mut Header| -> (b: bool) ensures b == hdr_is(*old(*h), "Content-Type"@)
 //@endfn
-#[verifier::rlimit(60)]
+#[verifier::rlimit(200)]
 //@fn raw_print ret res props C04,C05,C19
 //@spec
     requires upgrade is Some ==> str_is_ascii(upgrade->Some_0@),    // the protocol token comes from the application
